@@ -8,6 +8,7 @@ import (
 	"io"
 	"net"
 	"net/http"
+	"runtime/debug"
 	"sort"
 	"strings"
 	"sync"
@@ -94,6 +95,7 @@ type execResult struct {
 	Err       string   // engine.Execute error (operation rejected / planning failed), "" if none
 	RPCs      []string // sorted method names issued during this execution
 	RPCErrors []string // RPCs the service answered with an error
+	Stack     string   // stack of a recovered panic
 }
 
 // exec runs one operation. Executions are serialised per rig so that the recorded RPC list
@@ -108,6 +110,7 @@ func (g *rig) exec(query string) (res execResult) {
 		defer func() {
 			if p := recover(); p != nil {
 				res.Err = fmt.Sprintf("PANIC: %v", p)
+				res.Stack = string(debug.Stack())
 			}
 		}()
 		if err := g.eng.Execute(context.Background(), &req, &wr); err != nil {
